@@ -171,6 +171,9 @@ int main(int argc, char** argv) {
     mjModel* m = sup.get(r, go, &mdesc, nullptr, 150);
     if (!m) { end_case(); continue; }
     g_scenario = mdesc;
+    // every faulted load copies the whole file into an exact-size block: keep files below 1 MiB (big mesh / height-field models
+    // would spend minutes in memcpy without adding a new kind of field)
+    if (mj_sizeModel(m) > (1 << 20)) { count("model_skipped_file_over_1MiB"); mj_deleteModel(m); end_case(); continue; }
     // cap per case: no legitimate (re)load of this model needs more than a small multiple of its own size
     g_cap = std::max<size_t>((size_t)4 << 20, 16 * (size_t)mj_sizeModel(m));
     size_t live0 = g_live.size();
